@@ -344,7 +344,7 @@ func c12LabRows(out *bufio.Writer, lab *Lab, cases []*LabCase, docs map[string][
 				stats["rejected-explained-by-"+by]++
 				stats["values-rejected"]++
 			}
-			fmt.Fprintf(out, "jsvalid %s.js %s %s %s\t%s\t%s\t%s\n", c.ID, c.ID, c.Defs.Root, got.sexp(), impl, verdict, got.json())
+			fmt.Fprintf(out, "jsvalid %s.js %s %s %s\t%s\t%s\t%s\t%s\n", c.ID, c.ID, c.Defs.Root, got.sexp(), impl, verdict, got.json(), d.json())
 			fmt.Fprintf(out, "jshyp %s.go %s.js %s %s %s\tvalid=%v\tok\n", c.ID, c.ID, c.ID, c.Defs.Root, d.sexp(), impl == "valid")
 		}
 	}
@@ -358,6 +358,9 @@ var c12LabPinned = []struct {
 	{"any", `(defs "R" ("R" (struct (field "v" (any) true false -))))`, []string{`{"v":"text"}`, `{"v":12}`}},
 	{"requirednullable", `(defs "R" ("R" (struct (field "n" (int 64 true - -) true true -))))`, []string{`{"n":null}`, `{"n":4}`}},
 	{"const", `(defs "R" ("R" (struct (field "c" (const (s "fixed")) true false -) (field "n" (int 64 true - -) false false -))))`, []string{`{"c":"fixed"}`, `{"c":"fixed","n":3}`}},
+	{"nullunion", `(defs "R" ("R" (struct (field "x" (oneOfStructs "type" ("a" "A") ("b" "B")) false true -))) ("A" (struct (field "type" (const (s "a")) true false -))) ("B" (struct (field "type" (const (s "b")) true false -) (field "n" (int 64 true - -) true false -))))`,
+		[]string{`{"x":{"type":"b","n":1}}`, `{"x":null}`, `{}`}},
+	{"enumsign", `(defs "R" ("R" (struct (field "e" (ref "E") true false -))) ("E" (enumI -1)))`, []string{`{"e":-1}`}},
 	{"plain", `(defs "R" ("R" (struct (field "s" (string 1 5 false) true false -) (field "k" (ref "E") false false -) (field "l" (array (int 64 true 0 9)) true false -))) ("E" (enumS "a" "b")))`,
 		[]string{`{"s":"ab","k":"b","l":[1,9]}`, `{"s":"abcde","l":[]}`}},
 }
